@@ -1,9 +1,9 @@
 #!/bin/sh
-# usage: tools/seed2_try.sh Cxx n  [prop]   -- apply round-2 seed /tmp/seed2/Cxx/n to /repo, run the quick check, revert
+# usage: tools/seed2_try.sh Cxx n  [prop]   -- apply round-2 seed ${SEEDBASE:-/tmp/seed2}/Cxx/n to /repo, run the quick check, revert
 P=$1; N=$2; Q=${3:-$1}
 cd /verif
 git -C /repo diff --quiet || { echo "/repo not clean"; exit 3; }
-git -C /repo apply /tmp/seed2/$P/$N/patch.diff || { echo "patch does not apply"; exit 3; }
+git -C /repo apply ${SEEDBASE:-/tmp/seed2}/$P/$N/patch.diff || { echo "patch does not apply"; exit 3; }
 ./check $Q > /tmp/seed2run_${P}_${N}_${Q}.log 2>&1; rc=$?
 git -C /repo checkout -- .
 echo "$P/$N on $Q: exit $rc  $(grep -c '^VIOLATION' /tmp/seed2run_${P}_${N}_${Q}.log) violations; $(grep -m1 'what:' /tmp/seed2run_${P}_${N}_${Q}.log | cut -c1-160)"
